@@ -115,6 +115,7 @@ pub fn prepare(s: &Scenario) -> Result<Prepared, String> {
                 db_fault: None,
                 max_waits: 1000,
                 record_counts: false,
+                kill_after_waits: None,
             },
             o,
         );
@@ -162,6 +163,7 @@ pub fn execute(s: &Scenario, prep: &Prepared, prefix: &[usize], want_followup: b
             db_fault: None,
             max_waits: 200,
             record_counts: true,
+            kill_after_waits: None,
         },
         opts(s),
     );
@@ -190,6 +192,7 @@ pub fn execute(s: &Scenario, prep: &Prepared, prefix: &[usize], want_followup: b
                 db_fault: None,
                 max_waits: 200,
                 record_counts: false,
+                kill_after_waits: None,
             },
             o,
         );
